@@ -69,6 +69,10 @@ Definition exec_cmd (cf : sconf) (idx : N) (line : bytes) : bytes + bytes :=
   | Some (name :: args) =>
     if beq name (b "fail") then
       inr (ack_line (match args with c :: _ => dec_value c | [] => 50 end) idx name (b "boom"))
+    else if beq name (b "pfail") then
+      (* fails after it has already written part of its output: the client must drop that partial frame *)
+      inr (field_line (b "partial") (match args with _ :: v :: _ => v | _ => b "x" end) ++ field_line (b "file") (b "a.flac") ++
+           ack_line (match args with c :: _ => dec_value c | [] => 50 end) idx name (b "boom"))
     else if beq name (b "bin") then
       let n := match args with c :: _ => N.to_nat (dec_value c) | [] => O end in
       inl (b "binary: " ++ render_dec (N.of_nat n) ++ [LF] ++ payload n ++ [LF])
